@@ -539,6 +539,10 @@ def main():
     # ---- correspondence
     cases, impl, model, mism = [], [], [], []
     extra = {}
+    if b is not None and not os.path.exists(BIN + '/driver'):
+        # without the extracted model there is no correspondence check: that is never a pass
+        violations.append(('the extracted model (OCaml driver) does not build on this tree: the correspondence check cannot run',
+                           dict(kind='build', log='\n'.join(n for n in b.notes if 'driver' in n)[-3000:])))
     if b is not None and os.path.exists(BIN + '/driver'):
         if replay:
             rp = json.load(open(replay))
